@@ -76,7 +76,7 @@ ASSUME PlmnIntRoundTrip
 
 \* ---- the generator tree of malformed inputs
 MutVals(o) == {v \in {o - 1, o + 1, 0, 1, 2, 65535} : v >= 0 /\ v <= 65535}
-Muts(b, lp) == {SubSeq(b, 1, n) : n \in 0..Len(b)} \cup {UePatch16(b, p, v) : p \in lp, v \in MutVals(UeU16(b, p))}
+Muts(b, lp) == {SubSeq(b, 1, n) : n \in 0..Len(b)} \cup UNION {{UePatch16(b, p, v) : v \in MutVals(UeU16(b, p))} : p \in lp}
 MachInputs(g) ==
   IF g = "list" THEN UNION {Muts(UeMarshalSubs(x), UeLenPosSubs(x, 1)) : x \in Lists(MachSub, MachIns, MachPart)}
   ELSE UNION {Muts(UeMarshalSubRess(x), UeLenPosSubRess(x, 1)) : x \in Results(MachSub, MachRes)}
